@@ -42,9 +42,7 @@ def check(chk):
     Context = m.cls('plasTeX.Context', 'Context')
     r11(chk, m, Token, Tokenizer)
     r12(chk, m, tokmod, Context)
-    r13(chk, m, Token, Tokenizer)
-    r14_r15(chk, m, Tokenizer)
-    r17(chk, m, Tokenizer)
+    r19(chk, m)
     from . import shared
     shared.category_sequence_rules(chk, m, 'R1.8')
     chk.decline('the concrete token stream of a concrete string (it is the '
@@ -138,16 +136,21 @@ def r12(chk, m, tokmod, Context):
     fn = m.func('plasTeX.Context', 'Context.whichCode')
     chk.analysed(fn)
     for k in list(range(16)) + [None]:
-        it = A.Interp(model=m, scope=fn, hooks=WhichHooks(m, Context, k), exc_edges=False)
-        outs = it.run_function(fn)
+        # a table in which the character is a member of class k only (every class holds another character of its own)
+        table = ['%s%s' % ('pqrstuvwABCDEFGH'[i], 'x' if i == k else '') for i in range(16)]
+        it = A.Interp(model=m, scope=fn, hooks=A.Hooks(), exc_edges=False, heap=True, precise_exc=True, inline=4, max_iter=20)
+        it.h.keep = lambda ev: False
+        outs = it.run_function(fn, env={'self': A.Obj('context', {'categories': table}, cls=Context), 'char': 'x'})
         chk.paths += len(outs)
-        rets = sorted({repr(v) for kind, s, v in outs if kind == 'return'})
         want = k if k is not None else OTH
         key = 'whichCode(char in class %s)' % (CC[k] if k is not None else '<none>')
-        chk.verdict(R, key, rets == [repr(want)],
-                    'a character that is only in category class %s is reported as %s (expected %d)'
-                    % (CC[k] if k is not None else 'none', rets, want), chk.where(fn),
-                    'returns %s' % rets)
+        if it.imprecise or it.unknown_branches:
+            chk.undecided(R, key, '; '.join(sorted(set(list(it.imprecise) + list(it.unknown_branches)))[:3]), chk.where(fn))
+            continue
+        rets = {(kind, repr(v)) for kind, s, v in outs}
+        chk.decide(R, key, rets, {('return', repr(want))},
+                   'a character that is only in category class %s is reported as %s (expected %d)'
+                   % (CC[k] if k is not None else 'none', sorted(rets), want), chk.where(fn), 'returns %s' % sorted(rets))
     env = module_env(m, tokmod, ['DEFAULT_CATEGORIES', 'VERBATIM_CATEGORIES'])
     d, v = env.get('DEFAULT_CATEGORIES'), env.get('VERBATIM_CATEGORIES')
     need(isinstance(d, list) and isinstance(v, list), 'category tables do not fold')
@@ -571,3 +574,302 @@ def r14_r15(chk, m, Tokenizer):
                     'for ^^X with a character code %s 64 the reader yields %s; expected one decoded character chr(c%s64) '
                     'with its own category looked up again' % ('>=' if high else '<', sorted(res, key=repr), '-' if high else '+'), chk.where(fn), str(sorted(res, key=repr)))
     # (d) ^^ decoding only when the second character repeats the first: covered by (b) [no decoding] and (c)
+
+# ---------------------------------------------------------------------------
+# token streams of short inputs: the tokenizer interpreted as written (constructor, character reader, state machine,
+# push-back buffers) on a scripted source and a real category table, compared with a reference lexer
+# ---------------------------------------------------------------------------
+LEX_TABLE = ['\\', '{', '}', '$', '&', '\n', '#', '^', '_', '\x00', ' \t', 'abcxyzAB', '', '~', '%', '\x7f']
+TOKCLASS = {BG: 'BeginGroup', EG: 'EndGroup', MS: 'MathShift', AL: 'Alignment', PAR: 'Parameter', SUP: 'Superscript', SUB: 'Subscript',
+            LET: 'Letter', OTH: 'Other'}
+
+
+def ref_code(table, ch):
+    for code in (LET, SP, EOL, BG, EG, ESC, SUP, SUB, MS, AL, COM, ACT, PAR, IGN, INV):
+        if ch in table[code]:
+            return code
+    return OTH
+
+
+def ref_tokens(text_, table, changes=None):
+    """The token list TeX's lexical rules give for `text_` under the category table `table` (a list of 16 strings).
+    `changes` maps a number of tokens produced so far to a new table installed before the next token is asked for.
+    Conventions of the property as worded: a control sequence at the very end of the input has an empty name; an escape character
+    right before the end of a line gives one space token and the next line starts in state N; a blank line gives one \\par."""
+    table = list(table)
+    src = list(text_)
+    buf = []
+    out = []
+    state = 'N'
+    prev = None
+
+    def raw():
+        if buf:
+            return buf.pop(0)
+        return src.pop(0) if src else ''
+
+    def readline():
+        while src:
+            if src.pop(0) == '\n':
+                break
+
+    def chars():
+        while True:
+            ch = raw()
+            if not ch:
+                return
+            code = ref_code(table, ch)
+            if code == SUP:
+                nxt = raw()
+                if nxt != ch:
+                    if nxt:
+                        buf.insert(0, nxt)
+                else:
+                    n2 = raw()
+                    if not n2:
+                        buf.insert(0, ch)
+                    else:
+                        num = ord(n2)
+                        ch = chr(num - 64) if num >= 64 else chr(num + 64)
+                        code = ref_code(table, ch)
+            if code in (IGN, INV):
+                continue
+            yield code, ch
+    it = chars()
+    while True:
+        if changes and len(out) in changes:
+            table[:] = changes.pop(len(out))
+        try:
+            code, ch = next(it)
+        except StopIteration:
+            break
+        if code in (LET, OTH):
+            state = 'M'
+            tok = (TOKCLASS[code], ch)
+        elif code == SP:
+            if state in 'SN':
+                continue
+            state = 'S'
+            tok = ('Space', ' ')
+        elif code == EOL:
+            if state == 'S':
+                state = 'N'
+                continue
+            if state == 'M':
+                state = 'N'
+                tok = ('Space', ' ')
+            else:
+                tok = ('EscapeSequence', 'par')
+                if prev == tok:
+                    continue
+        elif code == ESC:
+            state = 'M'
+            try:
+                c2, ch2 = next(it)
+            except StopIteration:
+                tok = ('EscapeSequence', '')
+            else:
+                if c2 == LET:
+                    word = [ch2]
+                    for c3, ch3 in it:
+                        if c3 == LET:
+                            word.append(ch3)
+                        else:
+                            buf.insert(0, ch3)
+                            break
+                    tok = ('EscapeSequence', ''.join(word))
+                    state = 'S'
+                elif c2 == EOL:
+                    tok = ('Space', ' ')
+                    state = 'N'
+                else:
+                    tok = ('EscapeSequence', ch2)
+        elif code == COM:
+            readline()
+            state = 'N'
+            continue
+        elif code == ACT:
+            tok = ('EscapeSequence', 'active::%s' % ch)
+            state = 'M'
+        else:
+            tok = (TOKCLASS[code], ch)
+            state = 'M'
+        prev = tok
+        out.append(tok)
+    return out
+
+
+class LexHooks(A.Hooks):
+    """The scripted source (StringIO / read / readline), token objects as strings with a category, no \\let aliases."""
+    def __init__(self, model, cls):
+        self.model, self.cls = model, cls
+        self.Token = model.cls('plasTeX.Tokenizer', 'Token')
+
+    def keep(self, ev):
+        return False
+
+    def call(self, interp, node, fname, args, kwargs, state):
+        import io
+        base = fname.split('.')[-1]
+        if base in ('StringIO',) and len(args) <= 2 and all(isinstance(a, str) or a is None for a in args) \
+           and all(isinstance(v, str) or v is None for v in kwargs.values()) and set(kwargs) <= {'newline', 'initial_value'}:
+            try:
+                text_ = io.StringIO(*args, **kwargs).read()
+            except Exception:
+                return None
+            state.env['__src'] = [text_, 0]
+            return A.Obj('source', {'read': A.Sym('extfunc:source.read', truthy=True), 'readline': A.Sym('extfunc:source.readline', truthy=True),
+                                    'seek': A.Sym('extfunc:source.seek', truthy=True), 'tell': A.Sym('extfunc:source.tell', truthy=True),
+                                    'name': '<string>'})
+        if fname in ('source.read', 'source.readline', 'source.tell') and isinstance(state.env.get('__src'), list):
+            text_, pos = state.env['__src']
+            if fname == 'source.tell':
+                return pos
+            if fname == 'source.read':
+                n = args[0] if args and isinstance(args[0], int) and args[0] >= 0 else len(text_)
+                state.env['__src'] = [text_, min(len(text_), pos + n)]
+                return text_[pos:pos + n]
+            end = text_.find('\n', pos)
+            end = len(text_) if end < 0 else end + 1
+            state.env['__src'] = [text_, end]
+            return text_[pos:end]
+        if base == 'get_let' and len(args) == 1:
+            return args[0]
+        if isinstance(node.func, (ast.Name, ast.Subscript, ast.Attribute)) and fname not in ('source.read', 'source.readline'):
+            try:
+                fv = interp.ev(node.func, state) if not isinstance(node.func, ast.Attribute) or isinstance(node.func.value, (ast.Name, ast.Attribute)) else None
+            except AnalysisError:
+                fv = None
+            if isinstance(fv, M.ClassInfo) and self.model.is_subclass(fv, self.Token) and len(args) <= 1 and not kwargs:
+                txt = args[0] if args else ''
+                if not isinstance(txt, str):
+                    return None
+                cc = self.model.class_const(fv, 'catcode')
+                return A.TextObj(str(txt), label=fv.name, catcode=cc, nodeType=3, __eqkey=('tok', cc, str(txt)))
+        return None
+
+
+def lex_run(m, text_, table, changes=None, limit=40):
+    """Interpret Tokenizer(text_, context) and take its tokens one by one.  (tokens, problem or None)."""
+    Tokenizer = m.cls('plasTeX.Tokenizer', 'Tokenizer')
+    Context = m.cls('plasTeX.Context', 'Context')
+    init = m.find_method(Tokenizer, '__init__')
+    itf = m.find_method(Tokenizer, '__iter__')
+    need(init is not None and itf is not None, 'Tokenizer.__init__ / __iter__ not found')
+    h = LexHooks(m, Tokenizer)
+    it = A.Interp(model=m, scope=init, hooks=h, max_iter=60, exc_edges=False, inline=8, heap=True, precise_exc=True, max_states=40000)
+    it.run_init = True
+    tk = A.Obj('tokenizer', {}, cls=Tokenizer)
+    ctx = A.Obj('context', {'categories': list(table)}, cls=Context)
+    outs = it.run_function(init, env={'self': tk, 'source': text_, 'context': ctx, '__tk': tk, '__ctx': ctx})
+    if len(outs) != 1 or outs[0][0] not in ('return', 'fall'):
+        return None, 'the constructor has outcomes %s' % sorted((k, repr(v)) for k, s, v in outs)
+    st = outs[0][1]
+    st.env = {k: v for k, v in st.env.items() if k.startswith('__')}
+    tk, ctx = st.env['__tk'], st.env['__ctx']
+    gen = A.GenObj(itf.node, itf, itf, {'self': tk}, 'Tokenizer.__iter__')
+    st.env['__gen'] = gen
+    toks = []
+    changes = dict(changes or {})
+    for _ in range(limit):
+        if len(toks) in changes:
+            st.env['__ctx'].attrs['categories'][:] = changes.pop(len(toks))
+        item = it.gen_next(st.env['__gen'], st)
+        if '__exc' in st.env:
+            return toks, 'raises %s after %d token(s)' % (st.env['__exc'], len(toks))
+        if item is A.STOP:
+            break
+        if item is None:
+            return toks, 'not determined: %s' % '; '.join(sorted(set(list(it.unknown_branches) + list(it.imprecise)))[:3])
+        if isinstance(item, A.TextObj):
+            toks.append((item.attrs.get('label'), str(item)))
+        else:
+            toks.append(('?', repr(item)))
+    else:
+        return toks, 'no end after %d tokens' % limit
+    if it.imprecise or it.unknown_branches:
+        return toks, 'not determined: %s' % '; '.join(sorted(set(list(it.unknown_branches) + list(it.imprecise)))[:3])
+    return toks, None
+
+
+def lex_inputs(thorough=False):
+    """(label, text, table, changes) - every state x category x what follows, the ^^ forms, comments, line ends, other tables."""
+    chars = {ESC: '\\', BG: '{', EG: '}', MS: '$', AL: '&', EOL: '\n', PAR: '#', SUP: '^', SUB: '_', IGN: '\x00', SP: ' ', LET: 'a', OTH: '1',
+             ACT: '~', COM: '%', INV: '\x7f'}
+    prefixes = {'N': '', 'M': '1', 'S': '1 '}
+    follows = ['', 'b', ' b', '\nb'] + (['1', '\n\nb', ' \n b'] if thorough else [])
+    out = []
+    for stn, pre in prefixes.items():
+        for code, ch in chars.items():
+            for fo in follows:
+                out.append(('state %s, %s, then %r' % (stn, CC[code], fo), pre + ch + fo, LEX_TABLE, None))
+    extra = [
+        ('control word ended by a digit', '\\ab1c', None), ('control word ended by a space', '\\ab  c', None),
+        ('control word at the end of a line', '\\ab\n  c', None), ('control symbol then spaces', '\\1  c', None),
+        ('escape before the end of a line, blanks on the next line', '\\\n  a', None),
+        ('escape before the end of a line, then an empty line', 'a\\\n\nb', None),
+        ('two blank lines give one paragraph', 'a\n\n\n\nb', None), ('blank line with blanks', 'a\n  \t \nb', None),
+        ('tab is a blank', 'a\t\tb', None), ('comment to the end of the line', 'a% x y\n  b', None), ('comment on the last line', 'a%b', None),
+        ('comment after a control word', '\\ab%c\nd', None),
+        ('^^ with an upper-case letter', 'a^^Ab', None), ('^^ with a lower-case letter', '^^ab', None), ('^^ decoding a letter', '^^!b', None),
+        ('^^ decoding the escape character', '^^\x1cab 1', None), ('^^ at the very end of the input', 'a^^', None),
+        ('^^ before the end of a line', 'a^^\nb', None), ('a single ^ at the end', 'a^', None), ('^ followed by another character', '^a', None),
+        ('three ^', '^^^a', None), ('^^ decoding an ignored character', 'a^^@b', None), ('^^ decoding a space', 'a^^` b', None),
+        ('ignored and invalid characters are dropped', 'a\x00\x7fb', None), ('an invalid character between blanks', 'a \x7f b', None),
+        ('groups and math', '{$a_1^b$}&#', None), ('active character', '~a ~', None),
+    ]
+    for label, t, ch in extra:
+        out.append((label, t, LEX_TABLE, ch))
+    at_letter = list(LEX_TABLE)
+    at_letter[LET] += '@'
+    out.append(('@ as a letter: one control word', '\\a@b c', at_letter, None))
+    out.append(('@ as other: the control word ends', '\\a@b c', LEX_TABLE, None))
+    two_sup = list(LEX_TABLE)
+    two_sup[SUP] = '^!'
+    out.append(('two different superscript characters are not a ^^ form', 'a^!Ab', two_sup, None))
+    out.append(('the second superscript character doubled is one', 'a!!Ab', two_sup, None))
+    verb = [''] * 16
+    verb[LET] = LEX_TABLE[LET]
+    out.append(('verbatim table: everything else is other', '\\a{ %^^A\n~', verb, None))
+    esc2 = list(LEX_TABLE)
+    esc2[ESC], esc2[OTH] = '|', ''
+    out.append(('another escape character', '|ab \\c', esc2, None))
+    eol2 = list(LEX_TABLE)
+    eol2[EOL] = '\n\r'
+    eol2[SP] = ' \t'
+    out.append(('a carriage return as end of line', 'a\rb', eol2, None))
+    out.append(('a carriage return as a blank', 'a\r\rb', [x if i != SP else ' \t\r' for i, x in enumerate(LEX_TABLE)], None))
+    # the category table changes between two tokens: characters read ahead are categorised when they are read again
+    out.append(('the character after a control word is categorised when it is read again', '\\ab@c', LEX_TABLE, {1: at_letter}))
+    out.append(('a character pushed back after ^ is categorised when it is read again', '^@a', LEX_TABLE, {1: at_letter}))
+    return out
+
+
+def r19(chk, m):
+    R = chk.rule('R1.9', 'the tokenizer interpreted as written (constructor, character reader with ^^ decoding, N/M/S state machine, '
+                 'push-back buffers, comment skipping) on short inputs covering every state x category x following characters, the ^^ '
+                 'forms, line ends, other category tables and a table changed between two tokens: the token list (class and text) equals '
+                 'the one of a reference lexer written from the TeXbook rules, and no input raises', 200)
+    Tokenizer = m.cls('plasTeX.Tokenizer', 'Tokenizer')
+    for nm in ('__init__', '__iter__', 'iterchars', 'pushChar'):
+        fn = m.find_method(Tokenizer, nm)
+        need(fn is not None, 'Tokenizer.%s not found' % nm)
+        chk.analysed(fn)
+    chk.analysed(m.find_method(m.cls('plasTeX.Context', 'Context'), 'whichCode'))
+    itf = m.find_method(Tokenizer, '__iter__')
+    for label, text_, table, changes in lex_inputs(chk.tier == 'thorough'):
+        want = ref_tokens(text_, table, dict(changes) if changes else None)
+        try:
+            got, problem = lex_run(m, text_, table, dict(changes) if changes else None)
+        except AnalysisError as e:
+            chk.undecided(R, '%r: %s' % (text_, label), str(e), chk.where(itf))
+            continue
+        chk.paths += 1
+        key = '%r: %s' % (text_, label)
+        if problem is not None and problem.startswith('not determined') or got is None:
+            chk.undecided(R, key, problem, chk.where(itf))
+            continue
+        shown = [('%s(%r)' % t) for t in (got or [])] + ([problem] if problem else [])
+        chk.decide(R, key, {tuple(shown)}, {tuple('%s(%r)' % t for t in want)},
+                   'the input %r (%s) is tokenized as %s; TeX\'s rules give %s' % (text_, label, shown, ['%s(%r)' % t for t in want]),
+                   chk.where(itf))
